@@ -6,8 +6,18 @@ Correspondence (local step): the base block of the implementation's own `sums` a
 library's own addend/subtrahend offsets are fed to the model; all four blocks of
 row/column/total share (and the strand's share) are compared with the public outputs.
 Property oracle (no model): sum / total over BASE rows/columns computed in Python with
-exact fractions from the reported sums.
+exact fractions from the reported sums (slices AND strands).
+
+Display transforms (hide / explicit order / prune on rows and/or columns): every case may carry a
+`display` dict.  The partition is then built twice from the same response - (A) with the
+insertions only, (B) with the insertions plus the display transforms.  The property's definition
+does not mention the display: a hidden or pruned element is still a base row / column of the table
+and still counts in every total (and in the subtotals it is an addend of).  So the share matrix /
+vector of (B) must be exactly the selection by (B)'s own row_order() / column_order() of the FULL
+(base + inserted) share computed (i) by the model and (ii) by the property oracle from the sums of
+ALL base rows / columns as reported by (A).
 """
+import copy
 import json
 import random
 from fractions import Fraction
@@ -41,7 +51,63 @@ def numarr_response(rng):
               "counts": [rng.randint(0, 9) for _ in range(ncat)], "element": "crunch:cube",
               "measures": {"sum": {"data": data, "n_missing": 0, "metadata": md},
                            "valid_count_unweighted": {"data": vc, "n_missing": 0, "metadata": md}}}
-    return {"query": {}, "result": result}
+    return {"query": {}, "result": result, "_catv": catv}
+
+
+def dim_display(rng, v, role):
+    """hide / explicit order / prune for the dimension variable v contributes in `role`
+    ('elements': categories of a cat, 'items': items of an MR, 'numarr': numeric-array rows)."""
+    t = {}
+    if role == "numarr":
+        if rng.random() < 0.4:
+            t["prune"] = True
+        return t
+    if role == "items":
+        ids = [it["id"] for it in v.items]
+        keys = [rng.choice([str(it["id"]), it["alias"]]) for it in v.items]
+    else:
+        ids = gen.valid_cat_ids(v)
+        keys = [str(i) if rng.random() < 0.8 else i for i in ids]
+    r = rng.random()
+    p_hide = 0.0 if r < 0.25 else 0.3 if r < 0.8 else 0.6
+    hidden = [k for k in range(len(ids)) if rng.random() < p_hide]
+    if hidden:
+        t["elements"] = {keys[k]: {"hide": True} for k in hidden}
+    r = rng.random()
+    if r < 0.45 and ids:
+        x = rng.random()
+        if x < 0.4:
+            listed = rng.sample(ids, len(ids))
+        elif x < 0.8:
+            listed = rng.sample(ids, rng.randint(0, len(ids)))
+        else:
+            listed = rng.sample(ids, rng.randint(0, len(ids))) + [999]
+            rng.shuffle(listed)
+        t["order"] = {"type": "explicit", "element_ids": listed}
+    if rng.random() < 0.4:
+        t["prune"] = True
+    return t
+
+
+def add_display(rng, case, roles_vars):
+    """roles_vars: [(dimension key, variable, role)]"""
+    if rng.random() >= 0.75:
+        return
+    disp = {}
+    for key, v, role in roles_vars:
+        t = dim_display(rng, v, role)
+        if t:
+            disp[key] = t
+    if disp:
+        case["display"] = disp
+
+
+def merged_transforms(case):
+    out = copy.deepcopy(case.get("transforms") or {})
+    for key, t in (case.get("display") or {}).items():
+        d = out.setdefault(key, {})
+        d.update(copy.deepcopy(t))
+    return out
 
 
 def gen_case(rng, k):
@@ -51,8 +117,10 @@ def gen_case(rng, k):
         resp = numarr_response(rng)
         shape = "numarr_x_cat"
         strand = False
+        roles_vars = [("rows_dimension", None, "numarr"),
+                      ("columns_dimension", resp.pop("_catv"), "elements")]
     else:
-        strand = r < 0.3
+        strand = r < 0.42
         rowv = gen.make_cat(rng, "rowv") if rng.random() < 0.8 else gen.make_mr(rng, "rowv")
         colv = gen.make_cat(rng, "colv") if rng.random() < 0.8 else gen.make_mr(rng, "colv")
         if rowv.kind == "cat" and rng.random() < 0.7:
@@ -73,7 +141,11 @@ def gen_case(rng, k):
         if rng.random() < 0.25 and rowv.kind == "cat":
             # insertions given in the analysis transforms instead of the variable view
             transforms = {"rows_dimension": {"insertions": gen.random_insertions(rng, rowv)}}
-    return {"k": k, "response": resp, "transforms": transforms, "strand": strand, "shape": shape}
+        roles_vars = [(key, v, "elements" if v.kind == "cat" else "items")
+                      for key, v in zip(("rows_dimension", "columns_dimension"), variables)]
+    case = {"k": k, "response": resp, "transforms": transforms, "strand": strand, "shape": shape}
+    add_display(rng, case, roles_vars)
+    return case
 
 
 def impl_run(case):
@@ -87,6 +159,16 @@ def impl_run(case):
     out["v"] = {n: impl.get(A, n) for n in names}
     out["dims"] = impl.dims_info(A)
     out["subs"] = impl.subtotal_idxs(A)
+    if case.get("display"):
+        # (B) the same table under hide / explicit order / prune
+        r = impl.guarded(lambda: impl.partition(case["response"], merged_transforms(case)))
+        if r[0] != "ok":
+            out["vB"] = {"partition": r}
+        else:
+            out["vB"] = {n: impl.get(r[1], n) for n in names if n != "sums"}
+            dimsB = impl.guarded(lambda: impl.dims_info(r[1]))
+            if dimsB != ("ok", out["dims"]):
+                out["vB"]["dims"] = ("exc", "DimsDiffer", repr(dimsB))
     return out
 
 
@@ -94,10 +176,13 @@ def build_term(case, io):
     v = io["v"]
     if any(x[0] == "exc" for x in v.values()):
         return None
+    if any(x[0] == "exc" for x in io.get("vB", {}).values()):
+        return None
     if io["ndim"] == 1:
         n, ns = io["dims"]
-        base, _sub = impl.blocks1d(v["sums"][1], v["row_order"][1], n, ns)
+        base, sub = impl.blocks1d(v["sums"][1], v["row_order"][1], n, ns)
         io["base"] = base
+        io["sums_sub"] = sub
         return "r_vec (stripe_share_base %s) ++ r_vec (stripe_share_subtotals %s %s)" % (
             g_vec(base), g_vec(base), g_subtotals(io["subs"][0]))
     nr, nrs, nc, ncs = io["dims"]
@@ -157,12 +242,72 @@ def oracle_2d(io, blkS):
     return res
 
 
+def oracle_1d(io):
+    """Property value of the strand share for base rows and subtotals: the row's sum divided by
+    the total over ALL base rows.  A subtotal whose total is 0 is left undecided (None): the
+    library adds the addends' shares, which are infinities there."""
+    base, sub = io["base"], io["sums_sub"]
+    tot = nansum(base)
+    out = [xdiv(x, tot) for x in base]
+    for x in sub:
+        out.append(None if tot == 0 else xdiv(x, tot))
+    return out
+
+
 def split_blocks(full, nr, nc):
     return [[[r[:nc] for r in full[:nr]], [r[nc:] for r in full[:nr]]],
             [[r[:nc] for r in full[nr:]], [r[nc:] for r in full[nr:]]]]
 
 
+def join_blocks(b, nr, nrs):
+    """[[base, cols], [rows, inter]] -> full (nr + nrs) x (nc + ncs) matrix"""
+    def row(m, i):
+        return list(m[i]) if i < len(m) else []
+    return [row(b[0][0], i) + row(b[0][1], i) for i in range(nr)] + \
+           [row(b[1][0], k) + row(b[1][1], k) for k in range(nrs)]
+
+
+def pyidx(z, n):
+    return z if z >= 0 else n + z
+
+
 BLOCKNAMES = [["base", "inserted_columns"], ["inserted_rows", "intersections"]]
+
+
+def block_of(r, c, nr, nc):
+    return BLOCKNAMES[0 if r >= 0 else 1][0 if c >= 0 else 1]
+
+
+def compare_displayed_2d(io, name, model_full, oracle_full):
+    """(B): the displayed share must be the selection by (B)'s own orders of the full share."""
+    fails = []
+    nr, nrs, nc, ncs = io["dims"]
+    vB = io["vB"]
+    ro, co = [int(z) for z in vB["row_order"][1]], [int(z) for z in vB["column_order"][1]]
+    got = [list(map(float, r)) for r in vB[name][1]]
+    ctx_info = {"row_order": ro, "column_order": co, "sums_base": io["base"], "subs": io["subs"]}
+    if len(got) != len(ro) or any(len(r) != len(co) for r in got):
+        return [("%s.displayed impl-vs-property" % name,
+                 dict(ctx_info, shape=[len(got), len(got[0]) if got else 0]),
+                 {"measure": name, "block": "displayed-shape"})]
+    for which, full in (("impl-vs-model", model_full), ("impl-vs-property", oracle_full)):
+        for di, r in enumerate(ro):
+            bad = None
+            for dj, c in enumerate(co):
+                want = full[pyidx(r, nr + nrs)][pyidx(c, nc + ncs)]
+                if want is None:
+                    continue
+                if not core.close(got[di][dj], want, inf_sign=False):
+                    bad = (dj, c, want)
+                    break
+            if bad is not None:
+                dj, c, want = bad
+                fails.append(("%s.displayed %s" % (name, which),
+                              dict(ctx_info, cell=[di, dj], signed=[r, c], impl=got[di][dj],
+                                   expected=want),
+                              {"measure": name, "block": "displayed-" + block_of(r, c, nr, nc)}))
+                break
+    return fails
 
 
 def compare(case, io, toks):
@@ -178,6 +323,34 @@ def compare(case, io, toks):
         if not core.close_vec(isub, msub, inf_sign=False):
             fails.append(("share_sum.subtotals", {"impl": isub, "model": msub},
                           {"measure": "share_sum", "block": "inserted_rows"}))
+        # property oracle (independent of the model)
+        orc = oracle_1d(io)
+        for k, (x, o) in enumerate(zip(ib + isub, orc)):
+            if o is not None and not core.close(x, o, inf_sign=False):
+                fails.append(("share_sum.%s impl-vs-property" % ("base" if k < n else "subtotals"),
+                              {"row": k, "impl": x, "property": o, "sums_base": io["base"],
+                               "subs": io["subs"]},
+                              {"measure": "share_sum", "block": "base" if k < n else "inserted_rows"}))
+                break
+        if "vB" in io:
+            vB = io["vB"]
+            ro = [int(z) for z in vB["row_order"][1]]
+            got = [float(x) for x in vB["share_sum"][1]]
+            info = {"row_order": ro, "sums_base": io["base"], "sums_subtotals": io["sums_sub"],
+                    "subs": io["subs"]}
+            if len(got) != len(ro):
+                fails.append(("share_sum.displayed impl-vs-property", dict(info, impl=got),
+                              {"measure": "share_sum", "block": "displayed-shape"}))
+            else:
+                for which, full in (("impl-vs-model", mb + msub), ("impl-vs-property", orc)):
+                    for dk, z in enumerate(ro):
+                        want = full[pyidx(z, n + ns)]
+                        if want is not None and not core.close(got[dk], want, inf_sign=False):
+                            fails.append(("share_sum.displayed %s" % which,
+                                          dict(info, position=dk, signed=z, impl=got, expected=want),
+                                          {"measure": "share_sum",
+                                           "block": "displayed-" + ("base" if z >= 0 else "inserted_rows")}))
+                            break
         return fails
     nr, nrs, nc, ncs = io["dims"]
     ro, co = v["row_order"][1], v["column_order"][1]
@@ -186,9 +359,11 @@ def compare(case, io, toks):
     for name in ("row_share_sum", "column_share_sum", "total_share_sum"):
         ib = impl.blocks2d(v[name][1], ro, co, nr, nc, nrs, ncs)
         ob = split_blocks(orc[name], nr, nc)
+        mblk = [[None, None], [None, None]]
         for a in range(2):
             for b in range(2):
                 mm = d.mat()
+                mblk[a][b] = mm
                 blockname = BLOCKNAMES[a][b]
                 target = ib[a][b]
                 if (a == 0 and nr == 0) or (a == 1 and nrs == 0) or (b == 0 and nc == 0) or (b == 1 and ncs == 0):
@@ -214,7 +389,70 @@ def compare(case, io, toks):
                     else:
                         continue
                     break
+        if "vB" in io:
+            fails.extend(compare_displayed_2d(io, name, join_blocks(mblk, nr, nrs), orc[name]))
     return fails
+
+
+def display_features(case, io):
+    """distribution keys of the display twin (B)"""
+    if "vB" not in io:
+        return ["display:none"]
+    f = ["display:any"]
+    kind = "strand" if io["ndim"] == 1 else "slice"
+    f.append("display:" + kind)
+    for key, t in case["display"].items():
+        ax = "rows" if key == "rows_dimension" else "columns"
+        if "elements" in t:
+            f.append("display:hide-" + ax)
+        if "order" in t:
+            f.append("display:explicit-order-" + ax)
+        if t.get("prune"):
+            f.append("display:prune-" + ax)
+    vB = io["vB"]
+
+    def nonzero(x):
+        e = exact(x)
+        return not isinstance(e, str) and e != 0
+
+    def isnan(x):
+        return exact(x) == "nan"
+
+    if io["ndim"] == 1:
+        n, ns = io["dims"]
+        ro = [int(z) for z in vB["row_order"][1]]
+        gone = [i for i in range(n) if i not in ro]
+        if gone:
+            f.append("display:%s-undisplayed-base-row" % kind)
+        if any(nonzero(io["base"][i]) for i in gone):
+            f.append("display:strand-undisplayed-row-with-nonzero-sum")
+        if any(isnan(x) for x in io["base"]):
+            f.append("display:strand-nan-sums")
+        shown_subs = [pyidx(z, ns) for z in ro if z < 0]
+        if any(set(io["subs"][0][k][0] + io["subs"][0][k][1]) & set(gone) for k in shown_subs):
+            f.append("display:strand-shown-subtotal-with-undisplayed-addend")
+        return f
+    nr, nrs, nc, ncs = io["dims"]
+    ro = [int(z) for z in vB["row_order"][1]]
+    co = [int(z) for z in vB["column_order"][1]]
+    gr = [i for i in range(nr) if i not in ro]
+    gc = [j for j in range(nc) if j not in co]
+    base = io["base"]
+    if gr:
+        f.append("display:slice-undisplayed-base-row")
+    if gc:
+        f.append("display:slice-undisplayed-base-column")
+    if any(nonzero(base[i][j]) for i in gr for j in range(nc)) or \
+            any(nonzero(base[i][j]) for i in range(nr) for j in gc):
+        f.append("display:slice-undisplayed-vector-with-nonzero-sum")
+    if any(isnan(x) for r in base for x in r):
+        f.append("display:slice-nan-sums")
+    if any(set(io["subs"][0][pyidx(z, nrs)][0] + io["subs"][0][pyidx(z, nrs)][1]) & set(gr)
+           for z in ro if z < 0) or \
+       any(set(io["subs"][1][pyidx(z, ncs)][0] + io["subs"][1][pyidx(z, ncs)][1]) & set(gc)
+           for z in co if z < 0):
+        f.append("display:slice-shown-subtotal-with-undisplayed-addend")
+    return f
 
 
 def nontrivial(io):
@@ -225,7 +463,10 @@ def nontrivial(io):
 
 
 def _replayable(case):
-    return {k: case[k] for k in ("response", "transforms", "strand", "shape", "k")}
+    out = {k: case[k] for k in ("response", "transforms", "strand", "shape", "k")}
+    if case.get("display"):
+        out["display"] = case["display"]
+    return out
 
 
 def evaluate(cases, rep, tag="cases"):
@@ -235,6 +476,7 @@ def evaluate(cases, rep, tag="cases"):
         t = build_term(case, io)
         if t is None:
             excs = {n: x for n, x in io["v"].items() if x[0] == "exc"}
+            excs.update({"display." + n: x for n, x in io.get("vB", {}).items() if x[0] == "exc"})
             rep.count_case(case, False)
             rep.violation("impl-exception", _replayable(case), {"exceptions": excs},
                           {"what": "exception"})
@@ -251,6 +493,8 @@ def evaluate(cases, rep, tag="cases"):
         if io["ndim"] == 2:
             rep.dist("row_subtotals=%d" % io["dims"][1])
             rep.dist("col_subtotals=%d" % io["dims"][3])
+        for f in display_features(case, io):
+            rep.dist(f)
         if nt:
             rep.sample({"shape": case["shape"], "dims": io["dims"], "subs": io["subs"],
                         "sums_base": io["base"]})
@@ -264,25 +508,36 @@ def evaluate(cases, rep, tag="cases"):
 def run(tier, seed):
     rep = core.Report(PID, tier, seed)
     ob = core.obligations_gate(rep, PID)
-    n_cases = 250 if tier == "quick" else 4000
+    n_cases = 320 if tier == "quick" else 5000
     rng = random.Random(seed)
     cases = [gen_case(rng, k) for k in range(n_cases)]
     coq_s, nterms, _ = evaluate(cases, rep)
     rep.cov["rule"] = (
         "random.Random(seed): CAT|MR x CAT|MR slices, CAT|MR strands and NUM_ARRAY x CAT slices with a sum "
         "measure (8-12% unavailable cells => NaN sums), view or transform insertions incl. differences, "
-        "overlapping/stale addends; non-trivial = non-empty table with >= 1 subtotal (strand: >= 2 rows); "
-        "distinct by content hash")
+        "overlapping/stale addends; 42% strands; 75% of the cases are ALSO run under display transforms "
+        "(per dimension: hide flags on 0/30/60% of the elements by int / str / alias keys, explicit "
+        "order (permutation, subset, stale id) 45%, prune 40%) and the displayed share is required to be "
+        "the selection by the displayed partition's own row_order()/column_order() of the full share "
+        "(model and property oracle) computed from the sums of ALL base rows/columns of the "
+        "untransformed twin: hidden rows with non-zero sums, shown subtotals with hidden addends, NaN "
+        "sums (see the display:* distribution keys); non-trivial = non-empty table with >= 1 subtotal "
+        "(strand: >= 2 rows); distinct by content hash")
     rep.cov["coq_eval_seconds"] = round(coq_s, 2)
     rep.cov["model_terms_evaluated"] = nterms
     rep.assumptions = [
-        "the sums fed to the model are the implementation's own public `sums` (owned by C01)",
+        "the sums fed to the model are the implementation's own public `sums` (owned by C01) of the partition "
+        "WITHOUT display transforms (all base rows/columns present); the display twin's own `sums` are not read",
+        "the display twin is read through its own row_order()/column_order() (which elements are shown, and "
+        "where, is C09's / C07's / C05's); only the VALUES at those positions are C15's",
         "addend/subtrahend offsets of each subtotal are read from the library's Dimension objects (owned by C04)",
         "an infinity from a zero total is compared without its sign (signed zero is not modelled)",
     ]
     return rep.finish("proof", ob, trusted_base=core.TRUSTED_BASE_COMMON + [
         "Model/Share.v and Model/Subtotals.v are hand-written; tied to matrix/measure.py, stripe/measure.py, "
-        "matrix/subtotals.py, stripe/insertion.py by this correspondence run only"])
+        "matrix/subtotals.py, stripe/insertion.py by this correspondence run only",
+        "Model/Assemble.v (selection by a signed order vector; C05's model) is used only to STATE the "
+        "C15_*_displayed theorems; the run compares the displayed values directly"])
 
 
 def replay(path):
